@@ -5,7 +5,7 @@ LIST="$1"; PFX="$2"; TIER="${3:-quick}"; WHAT="${4:-SELF}"
 cd "$(dirname "$0")/.."
 # freeze the harness sources so that edits made while the campaign runs do not leak into it
 SNAP="$PWD/.scratch/harness_snapshot.$$"; rm -rf "$SNAP"; cp -r harness "$SNAP"; export VERIF_HARNESS_DIR="$SNAP"; trap 'rm -rf "$SNAP"' EXIT
-cut -d' ' -f1 "$LIST" | sort -u | xargs -P 8 -I{} bash -c '
+cut -d' ' -f1 "$LIST" | sort -u | xargs -P ${SEEDED_PAR:-8} -I{} bash -c '
   p={}; for x in $(grep "^$p " "'"$LIST"'" | cut -d" " -f2); do
     if [ "'"$WHAT"'" = SELF ]; then ./tools/seeded_scratch.sh '"$PFX"'$p $x '"$TIER"' $p 2>&1 | tail -25 | cut -c1-400;
     else ./tools/seeded_scratch.sh '"$PFX"'$p $x '"$TIER"' 2>&1 | tail -25 | cut -c1-400; fi
